@@ -355,3 +355,123 @@ def install_forecaster_contracts():
 def install_all():
     install_fh_contracts()
     install_forecaster_contracts()
+
+
+# ---------------------------------------------------------------------------------
+# splitters: per-split safety invariants on every yielded item, in every workload (C01)
+# ---------------------------------------------------------------------------------
+def install_splitter_contracts():
+    if "splitter" in _installed:
+        return
+    _installed.add("splitter")
+    import functools
+
+    from sktime.forecasting.model_selection._split import BaseSplitter
+
+    orig = BaseSplitter.split
+
+    @functools.wraps(orig)
+    def split(self, y):
+        n = len(y)
+        for train, test in orig(self, y):
+            try:
+                tr = [int(v) for v in train]
+                te = [int(v) for v in test]
+                ok = (tr == list(range(tr[0], tr[0] + len(tr))) if tr else True) and all(0 <= v < n for v in tr + te) and (not tr or not te or max(tr) < min(te))
+                REC.record("C01", "split.invariants", ok, "split:yielded-split-breaks-safety-invariant:" + type(self).__name__,
+                           "a yielded split is not a contiguous in-range training window strictly before its in-range test positions", train=tr[-4:], test=te[:4], n=n)
+            except Exception as e:  # noqa
+                REC.counters[("C01", "monitor-error:" + type(e).__name__)] += 1
+            yield train, test
+
+    BaseSplitter.split = split
+
+
+# ---------------------------------------------------------------------------------
+# transformers / classifiers / regressors: fit protocol and caller-data snapshots (C04, C12)
+# ---------------------------------------------------------------------------------
+def install_estimator_contracts():
+    if "estimator" in _installed:
+        return
+    _installed.add("estimator")
+    import functools
+    import importlib
+
+    for m in ("sktime.transformations.series.boxcox", "sktime.transformations.series.detrend", "sktime.transformations.series.adapt",
+              "sktime.transformations.series.compose", "sktime.transformations.series.impute", "sktime.transformations.series.outlier_detection",
+              "sktime.transformations.series.cos", "sktime.transformations.series.acf", "sktime.transformations.panel.compose",
+              "sktime.transformations.panel.padder", "sktime.transformations.panel.truncation", "sktime.transformations.panel.interpolate",
+              "sktime.transformations.panel.reduce", "sktime.transformations.panel.segment", "sktime.transformations.panel.dictionary_based",
+              "sktime.transformations.panel.summarize", "sktime.classification.interval_based", "sktime.classification.dictionary_based",
+              "sktime.classification.compose", "sktime.regression.interval_based"):
+        try:
+            importlib.import_module(m)
+        except Exception:  # noqa
+            pass
+    from sktime.classification.base import BaseClassifier
+    from sktime.forecasting.base import BaseForecaster
+    from sktime.regression.base import BaseRegressor
+    from sktime.transformations.base import BaseTransformer
+
+    def all_subclasses(c):
+        out = []
+        for s in c.__subclasses__():
+            out.append(s)
+            out.extend(all_subclasses(s))
+        return out
+
+    def wrap_fit(orig):
+        @functools.wraps(orig)
+        def fit(self, *a, **k):
+            before = _params_snapshot(self)
+            digs = [_data_digest(x) for x in a[:2]]
+            out = orig(self, *a, **k)
+            try:
+                cname = type(self).__name__
+                REC.record("C04", "fit.returns-self", out is self, "fit:returns-not-self:" + cname, "fit did not return the estimator itself")
+                REC.record("C04", "fit.sets-is_fitted", bool(getattr(self, "is_fitted", True)), "fit:is_fitted-not-set:" + cname, "is_fitted false after fit")
+                after = _params_snapshot(self)
+                if before is not None and after is not None:
+                    changed = [kk for kk in before if kk not in after or not _same_param(before[kk], after[kk])]
+                    REC.record("C04", "fit.params-unchanged", not changed, "fit:changes-constructor-parameter:%s:%s" % (cname, ",".join(changed)),
+                               "fit changed constructor parameter(s) %s" % changed)
+                REC.record("C12", "fit.caller-data-unchanged", all(_digest_equal(d, _data_digest(x)) for d, x in zip(digs, a[:2])), "fit:mutates-caller-data:" + cname,
+                           "fit modified the caller's data")
+            except Exception as e:  # noqa
+                REC.counters[("C04", "monitor-error:" + type(e).__name__)] += 1
+            return out
+        return fit
+
+    def wrap_apply(orig, mname):
+        @functools.wraps(orig)
+        def apply(self, *a, **k):
+            digs = [_data_digest(x) for x in a[:1]]
+            out = orig(self, *a, **k)
+            try:
+                REC.record("C12", mname + ".caller-data-unchanged", all(_digest_equal(d, _data_digest(x)) for d, x in zip(digs, a[:1])),
+                           "%s:mutates-caller-data:%s" % (mname, type(self).__name__), "%s modified the caller's data" % mname)
+            except Exception as e:  # noqa
+                REC.counters[("C12", "monitor-error:" + type(e).__name__)] += 1
+            return out
+        return apply
+
+    seen = set()
+    for base in (BaseTransformer, BaseClassifier, BaseRegressor):
+        for cls in [base] + all_subclasses(base):
+            if cls in seen or issubclass(cls, BaseForecaster):
+                continue
+            seen.add(cls)
+            d = cls.__dict__
+            if "fit" in d and callable(d["fit"]) and not getattr(d["fit"], "_vmon", False):
+                w = wrap_fit(d["fit"]); w._vmon = True; setattr(cls, "fit", w)
+            for mname in ("transform", "inverse_transform", "predict", "predict_proba"):
+                f = d.get(mname)
+                if f is not None and callable(f) and not getattr(f, "_vmon", False) and type(f).__name__ == "function":
+                    w = wrap_apply(f, mname); w._vmon = True; setattr(cls, mname, w)
+
+
+def install_all():
+    install_fh_contracts()
+    install_forecaster_contracts()
+    install_splitter_contracts()
+    install_estimator_contracts()
